@@ -17,8 +17,9 @@ import (
 const saslCap = "sasl"
 
 // sets up the internal event handlers to do essential IRC protocol things
+// (h_REGISTER is not in this table: internalConnect calls it directly, before
+// the REGISTER event is dispatched to the user's handlers.)
 var intHandlers = map[string]HandlerFunc{
-	REGISTER:     (*Conn).h_REGISTER,
 	"001":        (*Conn).h_001,
 	"433":        (*Conn).h_433,
 	CTCP:         (*Conn).h_CTCP,
